@@ -4,6 +4,7 @@ package main
 // and is listed in the evidence under trusted_base when used.
 
 import (
+	"fmt"
 	"go/types"
 	"strings"
 )
@@ -244,6 +245,83 @@ func init() {
 		"(error).Error": func(fr *Frame, st *State, args []Value, sig *types.Signature) []Outcome {
 			return ret(st, Scalar{UF("errmsg", SString, args[0].(Iface).Box)})
 		},
+	}
+}
+
+var syncMapType = types.NewMap(types.NewInterfaceType(nil, nil), types.NewInterfaceType(nil, nil))
+
+// the map value behind a sync.Map located at field `name` of the struct *p (or at p itself)
+func syncMapRef(st *State, p Ptr, name string) MapRef {
+	h := p.H
+	if name != "" {
+		h = UF("syncmap."+name, SInt, p.H)
+	}
+	return MapRef{H: h, T: syncMapType}
+}
+
+func syncMapOf(fr *Frame, st *State, recv Value) MapRef {
+	p := st.canon(recv).(Ptr)
+	name := ""
+	if len(p.Path) > 0 {
+		// field name from the enclosing struct type
+		c, ok := st.heap[p.H.String()]
+		if ok {
+			if sv, ok := c.V.(Struct); ok && p.Path[0].Index == nil {
+				name = sv.T.Field(p.Path[0].Field).Name()
+			}
+		}
+		if name == "" {
+			name = fmt.Sprintf("f%d", p.Path[0].Field)
+		}
+	}
+	return syncMapRef(st, Ptr{H: p.H}, name)
+}
+
+func init() {
+	models["(*sync.Map).Load"] = func(fr *Frame, st *State, args []Value, sig *types.Signature) []Outcome {
+		mo := st.mapCell(syncMapOf(fr, st, args[0]))
+		v, has, err := st.mapGet(mo, args[1])
+		if err != nil {
+			fail("sync.Map.Load: %v", err)
+		}
+		return ret(st, v, Scalar{has})
+	}
+	models["(*sync.Map).Store"] = func(fr *Frame, st *State, args []Value, sig *types.Signature) []Outcome {
+		mr := syncMapOf(fr, st, args[0])
+		mo := st.mapCell(mr)
+		n := &MapObj{T: mo.T, Base: mo.Base, Entries: append(append([]mapEntry{}, mo.Entries...), mapEntry{K: args[1], V: args[2]})}
+		st.heap[mr.H.String()] = Cell{V: n}
+		fr.recordWriteT(Ptr{H: mr.H}, nil)
+		return []Outcome{{St: st}}
+	}
+	models["(*sync.Map).Delete"] = func(fr *Frame, st *State, args []Value, sig *types.Signature) []Outcome {
+		mr := syncMapOf(fr, st, args[0])
+		mo := st.mapCell(mr)
+		n := &MapObj{T: mo.T, Base: mo.Base, Entries: append(append([]mapEntry{}, mo.Entries...), mapEntry{K: args[1], Del: true})}
+		st.heap[mr.H.String()] = Cell{V: n}
+		fr.recordWriteT(Ptr{H: mr.H}, nil)
+		return []Outcome{{St: st}}
+	}
+	models["(*sync.Map).LoadOrStore"] = func(fr *Frame, st *State, args []Value, sig *types.Signature) []Outcome {
+		mr := syncMapOf(fr, st, args[0])
+		mo := st.mapCell(mr)
+		v, has, err := st.mapGet(mo, args[1])
+		if err != nil {
+			fail("sync.Map.LoadOrStore: %v", err)
+		}
+		var outs []Outcome
+		fr.forkOn(st, has, func(f2 *Frame, s2 *State, taken bool) {
+			if taken {
+				outs = append(outs, Outcome{St: s2, Res: []Value{v, Scalar{True}}})
+				return
+			}
+			m2 := s2.mapCell(mr)
+			n := &MapObj{T: m2.T, Base: m2.Base, Entries: append(append([]mapEntry{}, m2.Entries...), mapEntry{K: args[1], V: args[2]})}
+			s2.heap[mr.H.String()] = Cell{V: n}
+			f2.recordWriteT(Ptr{H: mr.H}, nil)
+			outs = append(outs, Outcome{St: s2, Res: []Value{args[2], Scalar{False}}})
+		})
+		return outs
 	}
 }
 
